@@ -192,37 +192,40 @@ func vfRunLong(c *vfLongCase) (st vfLongStats, sig, msg string) {
 func vfLongTest(t *testing.T, owner string) {
 	ev := vfNewEvidence(t, owner)
 	rapid.Check(t, func(rt *rapid.T) {
-		c := &vfLongCase{Mode: rapid.SampledFrom([]string{"churn", "overfill", "evict"}).Draw(rt, "mode"), Gets: rapid.Bool().Draw(rt, "gets")}
-		switch c.Mode {
-		case "churn":
-			c.Batch = rapid.SampledFrom([]int{8, 32, 256}).Draw(rt, "batch")
-			c.Keys = rapid.SampledFrom([]int{20000, 110000, 140000}).Draw(rt, "keys")
-			c.CostMax = rapid.SampledFrom([]int{1, 5}).Draw(rt, "costMax")
-		case "overfill":
-			c.Batch = rapid.SampledFrom([]int{1024, 4096}).Draw(rt, "batch")
-			c.Keys = rapid.SampledFrom([]int{30000, 120000, 170000}).Draw(rt, "keys")
-			c.CostMax = rapid.SampledFrom([]int{1, 3}).Draw(rt, "costMax")
-		default:
-			c.Batch = rapid.SampledFrom([]int{16, 64, 512}).Draw(rt, "batch")
-			c.Keys = rapid.SampledFrom([]int{6000, 12000, 40000}).Draw(rt, "keys")
-			c.CostMax = rapid.SampledFrom([]int{1, 5, 9}).Draw(rt, "costMax")
+		// every case runs the three modes, each on a cache of its own
+		for _, mode := range []string{"churn", "overfill", "evict"} {
+			c := &vfLongCase{Mode: mode, Gets: rapid.Bool().Draw(rt, "gets")}
+			switch c.Mode {
+			case "churn":
+				c.Batch = rapid.SampledFrom([]int{8, 32, 256}).Draw(rt, "batch")
+				c.Keys = rapid.SampledFrom([]int{20000, 110000, 140000, 140000}).Draw(rt, "keys")
+				c.CostMax = rapid.SampledFrom([]int{1, 5}).Draw(rt, "costMax")
+			case "overfill":
+				c.Batch = rapid.SampledFrom([]int{1024, 4096}).Draw(rt, "batch")
+				c.Keys = rapid.SampledFrom([]int{30000, 120000, 170000, 170000}).Draw(rt, "keys")
+				c.CostMax = rapid.SampledFrom([]int{1, 3}).Draw(rt, "costMax")
+			default:
+				c.Batch = rapid.SampledFrom([]int{16, 64, 512}).Draw(rt, "batch")
+				c.Keys = rapid.SampledFrom([]int{6000, 12000, 40000}).Draw(rt, "keys")
+				c.CostMax = rapid.SampledFrom([]int{1, 5, 9}).Draw(rt, "costMax")
+			}
+			st, sig, msg := vfRunLong(c)
+			if sig != "" && sig[:3] == owner {
+				rt.Fatalf("%s", vfFail(owner, "long", sig, c, "%s", msg))
+			}
+			if sig != "" {
+				ev.Excluded("diverged_other=" + sig)
+				continue
+			}
+			ev.Class("long:operations", st.ops)
+			ev.Class("long:mode-"+c.Mode, 1)
+			// non-trivial: more than 100 000 values went through the cache, or more than 4096 left it by eviction
+			nt := st.admitted > 100000 || st.evictions > 4096
+			ev.Case(nt, vfHash(c.Mode, c.Keys, c.Batch, c.CostMax, c.Gets), "long-case")
+			ev.Sample(nt, func() any {
+				return map[string]any{"long": c, "operations": st.ops, "accepted": st.admitted, "evictions": st.evictions, "rejections": st.rejections, "checkpoints": st.checkpoints}
+			})
 		}
-		st, sig, msg := vfRunLong(c)
-		if sig != "" && sig[:3] == owner {
-			rt.Fatalf("%s", vfFail(owner, "long", sig, c, "%s", msg))
-		}
-		if sig != "" {
-			ev.Excluded("diverged_other=" + sig)
-			return
-		}
-		ev.Class("long:operations", st.ops)
-		ev.Class("long:mode-"+c.Mode, 1)
-		// non-trivial: more than 100 000 values went through the cache, or more than 4096 left it by eviction
-		nt := st.admitted > 100000 || st.evictions > 4096
-		ev.Case(nt, vfHash(c.Mode, c.Keys, c.Batch, c.CostMax, c.Gets), "long-case")
-		ev.Sample(nt, func() any {
-			return map[string]any{"long": c, "operations": st.ops, "accepted": st.admitted, "evictions": st.evictions, "rejections": st.rejections, "checkpoints": st.checkpoints}
-		})
 	})
 }
 
